@@ -4,11 +4,15 @@ import (
 	"context"
 	"errors"
 	"fmt"
+	"net"
 	"sync"
 	"testing"
 	"testing/synctest"
 	"time"
 
+	"google.golang.org/grpc/peer"
+
+	coretypes "github.com/projecteru2/core/types"
 	"github.com/projecteru2/core/utils"
 
 	"verif/harness/vcore"
@@ -66,6 +70,7 @@ type c17Case struct {
 	Rollback string `json:"rollback"`
 	Cancel   string `json:"cancel"`
 	TTL      string `json:"ttl"`
+	Caller   string `json:"caller,omitempty"` // "" = plain context | "rpc" = a context carrying a tracing id and a peer, as every RPC's does
 }
 
 var (
@@ -181,14 +186,16 @@ func c17Enum(t *testing.T, c *vcore.Ctx) {
 					}
 					for _, th := range c17Thens {
 						for _, cd := range c17Conds {
-							idx++
-							if !c.Mine(idx) {
-								continue
-							}
-							c17One(t, c, &c17Case{Form: form, Cond: cd, Then: th, Rollback: rb, Cancel: cancel, TTL: ttl})
-							if c.Expired() {
-								c.CapHit("budget reached")
-								return
+							for _, caller := range []string{"", "rpc"} {
+								idx++
+								if !c.Mine(idx) {
+									continue
+								}
+								c17One(t, c, &c17Case{Form: form, Cond: cd, Then: th, Rollback: rb, Cancel: cancel, TTL: ttl, Caller: caller})
+								if c.Expired() {
+									c.CapHit("budget reached")
+									return
+								}
 							}
 						}
 					}
@@ -232,6 +239,9 @@ func c17One(t *testing.T, c *vcore.Ctx, cs *c17Case) {
 func c17Execute(cs *c17Case) (*c17Run, string) {
 	ctx, cancel := context.WithCancel(context.Background())
 	defer cancel()
+	if cs.Caller == "rpc" {
+		ctx = peer.NewContext(context.WithValue(ctx, coretypes.TracingID, "trace-1"), &peer.Peer{Addr: &net.TCPAddr{IP: net.IPv4(10, 0, 0, 9), Port: 4000}})
+	}
 	r := &c17Run{cs: cs, cancel: cancel, gate: make(chan struct{})}
 	ttl := c17LongTTL
 	if cs.TTL == c17TTLShort {
